@@ -477,3 +477,120 @@ Proof.
   - unfold default_fuel. lia.
   - apply need_capok. exact Hneed.
 Qed.
+
+(* ---------- a failing Read ---------- *)
+(* what a call may return while the next event of the schedule is Fail (cap > 0: a real buffer;
+   cap = 0 is the slice window, which never reads) *)
+Definition failing_res (d : rd) (capv : nat) (o : nres) : Prop :=
+  match o with
+  | NTok _ r' => rrd r' = d /\ cap (rbw r') = capv     (* served from the buffer: the Read was not called *)
+  | NEnd _ => False
+  | NErr e r' => (e = E_Io /\ rrd r' = rd_after_fail d) \/ (e = E_BufferFull /\ rrd r' = d)
+  | NCrash _ => True
+  end.
+
+Lemma emit_failing b d bom t adv : failing_res d (cap b) (emit (mkreader b d bom) t adv).
+Proof.
+  unfold emit, bw_advance. cbn [rbw]. destruct (Nat.ltb (length (win b)) adv); cbn [failing_res]; auto.
+Qed.
+
+Lemma refill_failing fuel b d bom st c o tl : sched d = Fail :: tl -> 0 < cap b ->
+  failing_res d (cap b) (refill fuel (mkreader b d bom) st c o).
+Proof.
+  intros Hs Hcap. destruct fuel as [|f]; [exact I|]. cbn [refill rbw rrd rbom].
+  destruct (Nat.ltb (length (win b)) c); [exact I|].
+  unfold bw_fill_buf. cbn [cap win].
+  destruct (Nat.leb (cap b) _).
+  - replace (Nat.eqb (cap b) 0) with false by (symmetry; apply Nat.eqb_neq; lia).
+    cbn [failing_res rrd]. auto.
+  - unfold rd_read. rewrite Hs. cbn [failing_res rrd]. auto.
+Qed.
+
+Lemma fallback_failing fuel b d bom tl : sched d = Fail :: tl -> 0 < cap b ->
+  failing_res d (cap b) (fallback fuel (mkreader b d bom)).
+Proof.
+  intros Hs Hcap. unfold fallback. cbn [rbw rrd rbom].
+  destruct (fb _ _ _ _ _ _) as [[st' c' o'|t adv|s] bom']; [eapply refill_failing; eauto|apply emit_failing|exact I].
+Qed.
+
+Theorem next_opt_failing fuel r tl : sched (rrd r) = Fail :: tl -> 0 < cap (rbw r) ->
+  failing_res (rrd r) (cap (rbw r)) (next_opt fuel r).
+Proof.
+  destruct r as [b d bom]. cbn [rbw rrd]. intros Hs Hcap.
+  pose proof (fallback_failing fuel b d bom tl Hs Hcap) as Hfb.
+  unfold next_opt. cbn [rbw].
+  destruct (Nat.ltb (length (win b)) 9); [exact Hfb|].
+  destruct (nth_error (win b) _) as [c|]; [|exact I].
+  destruct (b_is c 123); [apply emit_failing|].
+  destruct (b_is c 125); [apply emit_failing|].
+  destruct (is_alnum_dash c).
+  { destruct (fu_outer _ _ _); [apply emit_failing|exact Hfb|exact I]. }
+  destruct (b_is c 34); [|exact Hfb].
+  destruct (fq_outer _ _ _ _); [apply emit_failing|exact Hfb|exact I].
+Qed.
+
+(* structural: a run over a failing Read never ends with OEnd or Eof *)
+Lemma run_failing : forall n fuel r tl, sched (rrd r) = Fail :: tl -> 0 < cap (rbw r) ->
+  exists pre x, fst (run_next n fuel r) = map OTok pre ++ [x] /\
+    (x = OErr E_Io \/ x = OErr E_BufferFull \/ exists s, x = OCrash s).
+Proof.
+  induction n as [|n IH]; intros fuel r tl Hs Hcap.
+  - exists [], (OCrash 7099%N). split; [reflexivity|eauto].
+  - cbn [run_next]. pose proof (next_opt_failing fuel r tl Hs Hcap) as Hf.
+    destruct (next_opt fuel r) as [t r'|r'|e r'|s]; cbn [failing_res] in Hf.
+    + destruct Hf as [Hd Hc]. destruct (IH fuel r' tl) as (pre & x & Hrun & Hx); [rewrite Hd; exact Hs|lia|].
+      destruct (run_next n fuel r') as [l p]. cbn [fst] in *. exists (t :: pre), x. rewrite Hrun. auto.
+    + contradiction.
+    + exists [], (OErr e). split; [reflexivity|]. destruct Hf as [[-> _]|[-> _]]; auto.
+    + exists [], (OCrash s). split; [reflexivity|eauto].
+Qed.
+
+Lemma rr_shape : forall n start s, length s <= n ->
+  exists pre x, fst (fst (rr start s)) = map OTok pre ++ [x] /\ (x = OEnd \/ x = OErr E_Eof).
+Proof.
+  induction n as [|n IH]; intros start s Hn; rewrite rr_unfold;
+    destruct (tk start s) as [[t s'| |k] m] eqn:E.
+  - apply tk_tok_shrinks with (n := length s) in E; lia.
+  - exists [], OEnd. auto.
+  - exists [], (OErr E_Eof). auto.
+  - apply tk_tok_shrinks with (n := length s) in E; [|lia].
+    destruct (IH false s' ltac:(lia)) as (pre & x & Hl & Hx).
+    destruct (rr false s') as [[l rem] m']. cbn [fst] in *. exists (t :: pre), x. rewrite Hl. auto.
+  - exists [], OEnd. auto.
+  - exists [], (OErr E_Eof). auto.
+Qed.
+
+(* persistent failure: from any consistent reader state in which the Read is failing, the run
+   does not complete: it returns the tokens that are already buffered (a prefix of the
+   fault-free tokens) and then the I/O error -- never a clean end, never Eof. *)
+Theorem persistent_run input : wf_bytes input -> forall n fuel r start sref tl,
+  rokf input r -> srel r start sref ->
+  length sref < n -> length input + 2 <= fuel ->
+  capok (rbw r) (rrd r) (snd (rr start sref)) ->
+  sched (rrd r) = Fail :: tl -> 0 < cap (rbw r) ->
+  exists pre suf p,
+    run_next n fuel r = (map OTok pre ++ [OErr E_Io], p) /\
+    fst (fst (rr start sref)) = map OTok pre ++ suf /\ suf <> [] /\ p <= length input.
+Proof.
+  intros Hwf n fuel r start sref tl Hrok Hrel Hn Hfuel Hcap Hs Hcpos.
+  destruct (run_prefix input Hwf n fuel r start sref Hrok Hrel Hn Hfuel Hcap) as [Heq|H]; [exfalso|exact H].
+  destruct (run_failing n fuel r tl Hs Hcpos) as (pre & x & Hrun & Hx).
+  destruct (rr_shape (length sref) start sref (le_n _)) as (pre' & y & Hl & Hy).
+  rewrite Heq in Hrun. cbn [fst] in Hrun. rewrite Hl in Hrun.
+  apply app_inj_tail in Hrun as [_ Hxy]. subst y.
+  destruct Hy as [->| ->]; destruct Hx as [Hx|[Hx|[s Hx]]]; discriminate.
+Qed.
+
+(* a Read that fails from the first call on: the run is exactly the I/O error at position 0 *)
+Theorem stream_fail_first input capv tl : 0 < capv ->
+  run_stream capv (Fail :: tl) input = ([OErr E_Io], 0).
+Proof.
+  intros Hcap. unfold run_stream. replace (length input + 2) with (S (length input + 1)) by lia.
+  cbn [run_next]. unfold default_fuel.
+  replace (4 * (length input + length (Fail :: tl)) + 64) with (S (4 * (length input + length (Fail :: tl)) + 63)) by lia.
+  unfold next_opt, reader_new, bw_new. cbn [rbw win length Nat.ltb Nat.leb].
+  unfold fallback. cbn [rbw win length fb rbom rrd]. cbn [refill rbw rrd rbom win length Nat.ltb Nat.leb].
+  unfold bw_fill_buf. cbn [cap win skipn length Nat.sub].
+  replace (Nat.leb capv 0) with false by (symmetry; apply Nat.leb_gt; exact Hcap).
+  unfold rd_read. cbn [sched]. reflexivity.
+Qed.
